@@ -217,7 +217,9 @@ class Message:
         if self.payload is None:
             raise TypeError("Payload must not be None. Use empty string instead.")
 
-        if uri:
+        if uri is not None:
+            # (also the empty string: it is no more a URI than any other
+            # text without a scheme, and set_request_uri says so)
             self.set_request_uri(uri)
 
         for k, v in kwargs.items():
